@@ -247,6 +247,107 @@ func genServer(c *Ctx) string {
 			}
 		}
 	}
+	// package-level variables of cmd/server written from any function other than main / init (state that would
+	// outlive a request): files.go, storage.go, http.go
+	var pkgWrites []string
+	{
+		pkgVars := map[string]bool{}
+		var fds []*ast.FuncDecl
+		for _, n := range []string{"files.go", "storage.go", "http.go"} {
+			src, err := os.ReadFile(filepath.Join(dir, n))
+			if err != nil {
+				continue
+			}
+			f, err := parser.ParseFile(c.fset, filepath.Join(dir, n), src, 0)
+			if err != nil {
+				continue
+			}
+			for _, d := range f.Decls {
+				switch x := d.(type) {
+				case *ast.GenDecl:
+					if x.Tok == token.VAR {
+						for _, sp := range x.Specs {
+							if vs, ok := sp.(*ast.ValueSpec); ok {
+								for _, id := range vs.Names {
+									pkgVars[id.Name] = true
+								}
+							}
+						}
+					}
+				case *ast.FuncDecl:
+					fds = append(fds, x)
+				}
+			}
+		}
+		for _, fd := range fds {
+			if fd.Body == nil || fd.Name.Name == "main" || fd.Name.Name == "init" {
+				continue
+			}
+			local := map[string]bool{}
+			if fd.Type.Params != nil {
+				for _, p := range fd.Type.Params.List {
+					for _, n := range p.Names {
+						local[n.Name] = true
+					}
+				}
+			}
+			ast.Inspect(fd.Body, func(n ast.Node) bool {
+				switch x := n.(type) {
+				case *ast.AssignStmt:
+					if x.Tok == token.DEFINE {
+						for _, l := range x.Lhs {
+							if id, ok := l.(*ast.Ident); ok {
+								local[id.Name] = true
+							}
+						}
+					}
+				case *ast.ValueSpec:
+					for _, id := range x.Names {
+						local[id.Name] = true
+					}
+				}
+				return true
+			})
+			rootOf := func(e ast.Expr) string {
+				for {
+					switch x := e.(type) {
+					case *ast.SelectorExpr:
+						e = x.X
+					case *ast.IndexExpr:
+						e = x.X
+					case *ast.StarExpr:
+						e = x.X
+					case *ast.ParenExpr:
+						e = x.X
+					case *ast.Ident:
+						return x.Name
+					default:
+						return ""
+					}
+				}
+			}
+			ast.Inspect(fd.Body, func(n ast.Node) bool {
+				switch x := n.(type) {
+				case *ast.AssignStmt:
+					if x.Tok != token.DEFINE {
+						for _, l := range x.Lhs {
+							if r := rootOf(l); r != "" && pkgVars[r] && !local[r] {
+								pkgWrites = append(pkgWrites, coqString(fd.Name.Name+":"+r))
+							}
+						}
+					}
+				case *ast.IncDecStmt:
+					if r := rootOf(x.X); r != "" && pkgVars[r] && !local[r] {
+						pkgWrites = append(pkgWrites, coqString(fd.Name.Name+":"+r))
+					}
+				}
+				return true
+			})
+		}
+		sort.Strings(pkgWrites)
+	}
+	b.WriteString("(* assignments to package-level variables of cmd/server from functions other than main / init *)\n")
+	b.WriteString("Definition package_var_writes : list string := " + coqList(pkgWrites) + ".\n")
 	fmt.Fprintf(&b, "Definition repo_methods_locked : bool := %s.      (* each repository method: r.mu.Lock(); defer r.mu.Unlock() first *)\n", coqBool(locked))
 	fmt.Fprintf(&b, "Definition repo_bodies_recognised : bool := %s.   (* map insert / delete / lookup by ID / copy-out listing *)\n", coqBool(bodies))
 	return b.String()
